@@ -13,7 +13,7 @@ ASSUMPTIONS = ["only listeners registered at datagram start and not removed whil
 
 def floors(tier):
     q = tier == "quick"
-    return {"c06.contract": 3000 if q else 200000, "c06.mid_state": 2000 if q else 150000, "c06.final_state": 4000 if q else 250000}
+    return {"c06.contract": 30000 if q else 3000000, "c06.mid_state": 20000 if q else 2000000, "c06.final_state": 40000 if q else 3000000}
 
 
 def plan(tier, seed):
